@@ -94,7 +94,11 @@ func (o *overlayEnviron) Set(name string, vr expand.Variable) error {
 	if o.values == nil {
 		o.values = make(map[string]namedVariable)
 	}
-	if vr.Kind == expand.KeepValue {
+	if vr.Kind == expand.KeepValue && o.funcScope && vr.Local && !inOverlay {
+		// A declaration like `local foo` for a name which is not yet local to
+		// this function creates a new unset variable shadowing any outer one.
+		vr = expand.Variable{Local: true, Exported: vr.Exported, ReadOnly: vr.ReadOnly}
+	} else if vr.Kind == expand.KeepValue {
 		vr.Kind = prev.Kind
 		vr.Str = prev.Str
 		vr.List = prev.List
